@@ -107,7 +107,60 @@ def plan_cases(ck, cases, funcs=(), nearly=(), label="plan"):
     return [sigs[i] for i in range(len(cases))]
 
 
-def judge_cases(ck, cases, opts=(1,), per=40, funcs=(), nearly=(), prefix="C01", runner=None, label="cases", ledger=False, asan=False):
+def _judge_forked(ck, errc, opts, funcs, nearly, prefix, label, runner, compile_failed, asan, per=60):
+    import semgen
+    from concurrent.futures import ThreadPoolExecutor
+    groups = [errc[i:i + per] for i in range(0, len(errc), per)]
+
+    def one(g):
+        fns = [dict(n="fall_%d" % k, params=[], ret=ddp.TNONE, body=[{"k": "block", "body": semgen.batch_program([c], "x")["main"][0]["body"]}]) for k, c in enumerate(g)]
+        P = dict(structs=list(semgen.STRUCTS.values()), funcs=list(funcs) + fns, main=list(nearly), nearly=len(nearly))
+        src = ddp.render(P, extern_funcs={f["n"] for f in fns})
+        return g, fns, src, ddp.run_forked(runner, src, len(g), opts=opts, asan=asan)
+    recs, meta = [], []
+    done = []
+    while groups:
+        nxt = []
+        with ThreadPoolExecutor(max_workers=runner.jobs) as ex:
+            for g, fns, src, res in ex.map(one, groups):
+                if res["fail"] and len(g) > 1:
+                    h = len(g) // 2
+                    nxt += [g[:h], g[h:]]
+                else:
+                    done.append((g, fns, src, res))
+        groups = nxt
+    if True:
+        for g, fns, src, res in done:
+            if res["fail"]:
+                for c in g:
+                    compile_failed.append((c.key, list(res["fail"].values())[0][0], list(res["fail"].values())[0][1], src))
+                continue
+            for k, c in enumerate(g):
+                meta.append((len(recs), c, src))
+                recs.append(dict(e="prog", id=c.key, p=dict(structs=list(semgen.STRUCTS.values()), funcs=list(funcs) + [fns[k]],
+                                                             main=list(nearly) + [{"k": "expr", "e": ddp.call("fall_%d" % k, [])}])))
+                for o in opts:
+                    recs.append(ddp.obs_event(res["runs"][o][k], "O%d" % o))
+    if not recs:
+        return dict(n=0)
+    bad, exp, st, nun = validate(recs)
+    ck.cov["states"] += st["distinct"]; ck.cov["transitions"] += st["generated"]
+    ck.cov["tlc_runs"].append(dict(name="DDPRunTrace %s forked" % label, lines=st["lines"], wall_s=round(st["wall"], 1), chunks=st["chunks"]))
+    ck.cov["traces_validated_against_impl"] += sum(1 for r in recs if r["e"] == "obs")
+    starts = [m[0] for m in meta]
+    for i in bad:
+        j = bisect.bisect_right(starts, i) - 1
+        _, c, src = meta[j]
+        ev = recs[i]
+        sig, etext = exp.get(i, ("?", ""))
+        otext = "".join(chr(x) for x in ev["out"])
+        ck.fail("%s:%s:%s" % (prefix, c.key, ev["cfg"]), "case %s (%s, forked driver): expected %s %r, observed rterr=%s code=%s %r" % (
+            c.key, ev["cfg"], sig, etext[:150], ev["rterr"], ev["code"], otext[:150]),
+            dict(case=c.key, cfg=ev["cfg"], expected=dict(sig=sig, out=etext), observed=dict(out=otext, rterr=ev["rterr"], code=ev["code"]), source=src))
+    return dict(n=len(meta))
+
+
+def judge_cases(ck, cases, opts=(1,), per=40, funcs=(), nearly=(), prefix="C01", runner=None, label="cases", ledger=False, asan=False, fork_solo=24):
     """Batches cases into programs, runs them under every opt level, validates with DDPRunTrace and registers failures
     on the Check object.  Batches that fail to build are bisected down to single cases (those are C02's subject and are
     returned); a batch that reaches an unspecified corner is cut there and the remaining cases are re-run, so that
@@ -120,7 +173,12 @@ def judge_cases(ck, cases, opts=(1,), per=40, funcs=(), nearly=(), prefix="C01",
     errc = [c for c, s in zip(cases, sigs) if s == "rterr"]
     compile_failed, unspec_cases = [], [c.key for c, s in zip(cases, sigs) if s == "unspec"]
     pending = [(okc[i:i + per], "%s-%s-%d" % (prefix, label, i // per)) for i in range(0, len(okc), per)]
-    pending += [([c], "%s-%s-e%d" % (prefix, label, i)) for i, c in enumerate(errc)]
+    # cases expected to end in a Laufzeitfehler: a seed-chosen sample as stand-alone programs, all of them through the
+    # forking driver (one compilation, one process per case; see harness/shim/forkmain.c)
+    rs = vlib.rng(prefix + label)
+    solo = rs.sample(errc, min(len(errc), fork_solo))
+    pending += [([c], "%s-%s-e%d" % (prefix, label, i)) for i, c in enumerate(solo)]
+    fork_stats = _judge_forked(ck, errc, opts, funcs, nearly, prefix, label, runner, compile_failed, asan)
     all_recs, all_meta = [], []      # meta: (record start, batch cases, src, results)
     nprogs = 0
     for rnd in range(12):
